@@ -155,6 +155,50 @@ def validation_checks(ctx):
                        dict(estimator=name, params=b))
 
 
+def classified_validation_cases(ctx):
+  """the translated _validate_calibration_params (gen/Src_calib.v, the definition C16_source is about) evaluated in Coq on
+  classified arguments against the outcome of the function itself, over a grid of strategies and option values"""
+  import math
+  from metric_learn.base_metric import _PairsClassifierMixin
+  from vcore import qdy
+
+  def cls(v):
+    if v is None:
+      return 'ANone'
+    if isinstance(v, (int, float)):
+      if isinstance(v, float) and math.isnan(v):
+        return 'ANan'
+      if isinstance(v, float) and math.isinf(v):
+        return '(AInf %s)' % ('true' if v > 0 else 'false')
+      return '(ANum %s)' % qdy(float(v))
+    return 'AOther'
+  smap = {'accuracy': 'SAccuracy', 'f_beta': 'SFbeta', 'max_tpr': 'SMaxTpr', 'max_tnr': 'SMaxTnr'}
+  vals = [None, 0, 1, 0.5, 2, -1, 1.0000001, -1e-9, float('nan'), float('inf'), float('-inf'), '0.5', [0.5], 0.5j, np.float64(0.25), True,
+          np.float32(0.5), np.int64(1)]
+  terms, recs = [], []
+  for st in ('accuracy', 'f_beta', 'max_tpr', 'max_tnr', 'weird', None, 'Accuracy'):
+    for mr in vals:
+      for b in (vals if st == 'f_beta' else [1.0, None]):
+        try:
+          _PairsClassifierMixin._validate_calibration_params(st, mr, b)
+          ok_impl = True
+        except ValueError:
+          ok_impl = False
+        except Exception as ex:
+          ctx.fail_input('invalid_params_rejected', '_validate_calibration_params raises ' + type(ex).__name__,
+                         dict(strategy=repr(st), min_rate=repr(mr), beta=repr(b)))
+          continue
+        terms.append("(Bool.eqb (src_validate_calibration_params %s %s %s) %s)" % (smap.get(st, 'SOther'), cls(mr), cls(b), 'true' if ok_impl else 'false'))
+        recs.append(dict(strategy=repr(st), min_rate=repr(mr), beta=repr(b), implementation_returns=ok_impl))
+  header = HEADER + "\nFrom ML Require Import Calibrate CalibArgs.\nFrom MLgen Require Import Src_calib.\n"
+  res = ctx.run_cases('c16_validate', header, terms, per_file=400)
+  for r, rec in zip(res, recs):
+    ctx.count('validation_translated_vs_code', 1)
+    if r is False:
+      ctx.fail_input('invalid_params_rejected', 'the translated _validate_calibration_params and the function itself disagree (the function %s)'
+                     % ('returns' if rec['implementation_returns'] else 'raises ValueError'), rec)
+
+
 def run(ctx):
   thorough = ctx.tier == 'thorough'
   rng = ctx.rng
@@ -169,7 +213,7 @@ def run(ctx):
   ctx.trusted = ["text pins tools/translate_pins.py (calibrate_threshold, _validate_calibration_params)", "Coq 8.16.1 kernel + vm_compute", "hand-written model Model/Calibrate.v tied to the code by this correspondence",
                  "oracles: sklearn roc_curve / precision_recall_curve (inside the implementation; the model states what the "
                  "documented result must be)", "harness"]
-  ok = ctx.build_property()
+  ok = ctx.build_property(gen_needed=['Src_calib'])
   ests = [host(n, 2) for n in ('ITML', 'MMC', 'SDML')]
   for e in ests:
     e.components_ = np.array([[1.0]])
@@ -316,6 +360,8 @@ def run(ctx):
           ctx.fail_input('parameter_number_types', 'the calibrated threshold depends on the number type of %s' % key, inp,
                          observed=t_typed, expected=t_plain)
   validation_checks(ctx)
+  if ctx.property_ok:
+    classified_validation_cases(ctx)
 
 
 def replay(payload):
